@@ -195,6 +195,7 @@ pub trait QueueLike: Sized + Clone + std::fmt::Debug + 'static {
     fn q_into_sorted_iter(self) -> Box<dyn DynIter<OwnPair>>;
 
     fn q_debug(&self) -> String;
+    fn q_clone_from(&mut self, src: &Self);
     fn q_to_json(&self) -> Result<String, String>;
     fn q_to_value(&self) -> Result<serde_json::Value, String>;
     fn q_from_json(s: &str) -> Result<Self, String>;
@@ -258,6 +259,7 @@ macro_rules! common_impl {
         fn q_drain<'a>(&'a mut self) -> Box<dyn DynIter<OwnPair> + 'a> { Box::new(DDrain(Caps(<$ty<H>>::drain(self)))) }
         fn q_into_iter(self) -> Box<dyn DynIter<OwnPair>> { Box::new(DIntoIter(Caps(<$ty<H> as IntoIterator>::into_iter(self)))) }
         fn q_debug(&self) -> String { format!("{:?}", self) }
+        fn q_clone_from(&mut self, src: &Self) { Clone::clone_from(self, src) }
         fn q_to_json(&self) -> Result<String, String> { serde_json::to_string(self).map_err(|e| e.to_string()) }
         fn q_to_value(&self) -> Result<serde_json::Value, String> { serde_json::to_value(self).map_err(|e| e.to_string()) }
         fn q_from_json(s: &str) -> Result<Self, String> { serde_json::from_str::<$ty<H>>(s).map_err(|e| e.to_string()) }
